@@ -386,6 +386,24 @@ def u_ctl():
     add("ctl-fixed", ["a: Qfixed[2,2]"], "Qint[2]", "return int(a)")
     add("ctl-fixed", ["a: Qfixed[2,2]", "b: Qfixed[2,2]"], "bool", "return a <= b")
     add("ctl-fixed", ["a: Qfixed[2,3]", "b: Qfixed[2,3]"], "Qfixed[2,3]", "return a - b")
+    # constants whose own (smallest) format has a narrower integer part than the other operand
+    add("ctl-fixed", ["a: Qfixed[2,4]"], "Qfixed[2,4]", "return a + 0.25")
+    add("ctl-fixed", ["a: Qfixed[2,4]"], "bool", "return a > 1.5")
+    add("ctl-fixed", ["a: Qfixed[2,4]"], "bool", "return a == 0.25")
+    add("ctl-fixed", ["a: Qfixed[2,2]"], "bool", "return a != 0.5")
+    add("ctl-fixed", ["a: Qfixed[3,3]"], "bool", "return a <= 2.5")
+    add("ctl-fixed", ["a: Qfixed[2,3]"], "Qfixed[2,3]", "return a - 0.5")
+    add("ctl-fixed", ["a: Qfixed[2,3]"], "Qfixed[2,3]", "return 1.5 - a")
+    add("ctl-fixed", ["a: Qfixed[2,2]", "b: bool"], "Qfixed[2,2]", "return (a + 0.5) if b else 0.25")
+    add("ctl-fixed", ["a: Qfixed[2,4]"], "bool", "return 0.75 < a")
+    # values of different formats meet (binary points aligned), results widened on return
+    add("ctl-fixed", ["a: Qfixed[1,2]"], "Qfixed[2,3]", "return a")
+    add("ctl-fixed", ["a: Qfixed[1,2]", "b: Qfixed[2,3]"], "Qfixed[2,3]", "return a + b")
+    add("ctl-fixed", ["a: Qfixed[2,2]", "b: Qfixed[1,3]"], "bool", "return a > b")
+    add("ctl-fixed", ["a: Qfixed[2,2]", "b: Qfixed[1,4]"], "bool", "return a == b")
+    add("ctl-fixed", ["a: Qfixed[1,2]", "b: Qfixed[2,4]"], "Qfixed[2,4]", "return b - a")
+    add("ctl-fixed", ["a: Qfixed[1,3]"], "Qfixed[2,4]", "return a + 1.5")
+    add("ctl-fixed", ["a: Qint[3]"], "Qfixed[3,3]", "return float(a) + 0.5")
     return P
 
 
